@@ -195,6 +195,25 @@ func (w *World) runClient(ci int, c *Client) {
 	}
 }
 
+// topLevel: with no executor listeners and no context the package-level helpers (failsafe.Run, Get, ...) are used
+// instead of an Executor.
+func topLevel(op *Op) bool { return op.NoExecListeners == 7 && op.Ctx == CtxNone }
+
+func (w *World) policies(op *Op) []failsafe.Policy[R] {
+	st := w.sc.Stacks[op.Stack]
+	var pols []failsafe.Policy[R]
+	for pos, pi := range st {
+		if !w.sc.NoProbes {
+			pols = append(pols, &probe{w: w, stack: op.Stack, pos: pos})
+		}
+		pols = append(pols, w.pols[pi])
+	}
+	if !w.sc.NoProbes {
+		pols = append(pols, &probe{w: w, stack: op.Stack, pos: len(st)})
+	}
+	return pols
+}
+
 func (w *World) executor(op *Op) (failsafe.Executor[R], context.Context) {
 	st := w.sc.Stacks[op.Stack]
 	var pols []failsafe.Policy[R]
@@ -343,23 +362,47 @@ func (w *World) runExec(op *Op) {
 	}
 	var res R
 	var err error
-	switch op.Entry {
-	case EnRun:
+	top := topLevel(op)
+	var pols []failsafe.Policy[R]
+	if top {
+		pols = w.policies(op)
+	}
+	switch {
+	case top && op.Entry == EnRun:
+		err = failsafe.Run(func() error { _, e := w.userFn(op, nil); return e }, pols...)
+	case top && op.Entry == EnRunExec:
+		err = failsafe.RunWithExecution(func(exec failsafe.Execution[R]) error { _, e := w.userFn(op, exec); return e }, pols...)
+	case top && op.Entry == EnGet:
+		res, err = failsafe.Get(func() (R, error) { return w.userFn(op, nil) }, pols...)
+	case top && op.Entry == EnGetExec:
+		res, err = failsafe.GetWithExecution(func(exec failsafe.Execution[R]) (R, error) { return w.userFn(op, exec) }, pols...)
+	}
+	switch {
+	case top && !entryAsync(op.Entry):
+	case op.Entry == EnRun:
 		err = ex.Run(func() error { _, e := w.userFn(op, nil); return e })
-	case EnRunExec:
+	case op.Entry == EnRunExec:
 		err = ex.RunWithExecution(func(exec failsafe.Execution[R]) error { _, e := w.userFn(op, exec); return e })
-	case EnGet:
+	case op.Entry == EnGet:
 		res, err = ex.Get(func() (R, error) { return w.userFn(op, nil) })
-	case EnGetExec:
+	case op.Entry == EnGetExec:
 		res, err = ex.GetWithExecution(func(exec failsafe.Execution[R]) (R, error) { return w.userFn(op, exec) })
 	default:
 		var er failsafe.ExecutionResult[R]
-		switch op.Entry {
-		case EnRunAsync:
+		switch {
+		case top && op.Entry == EnRunAsync:
+			er = failsafe.RunAsync(func() error { _, e := w.userFn(op, nil); return e }, pols...)
+		case top && op.Entry == EnRunExecAsync:
+			er = failsafe.RunWithExecutionAsync(func(exec failsafe.Execution[R]) error { _, e := w.userFn(op, exec); return e }, pols...)
+		case top && op.Entry == EnGetAsync:
+			er = failsafe.GetAsync(func() (R, error) { return w.userFn(op, nil) }, pols...)
+		case top:
+			er = failsafe.GetWithExecutionAsync(func(exec failsafe.Execution[R]) (R, error) { return w.userFn(op, exec) }, pols...)
+		case op.Entry == EnRunAsync:
 			er = ex.RunAsync(func() error { _, e := w.userFn(op, nil); return e })
-		case EnRunExecAsync:
+		case op.Entry == EnRunExecAsync:
 			er = ex.RunWithExecutionAsync(func(exec failsafe.Execution[R]) error { _, e := w.userFn(op, exec); return e })
-		case EnGetAsync:
+		case op.Entry == EnGetAsync:
 			er = ex.GetAsync(func() (R, error) { return w.userFn(op, nil) })
 		default:
 			er = ex.GetWithExecutionAsync(func(exec failsafe.Execution[R]) (R, error) { return w.userFn(op, exec) })
